@@ -10,6 +10,8 @@ namespace LoomVerif
 structure LazyVal where
   sync : Sync := Sync.new
   inst : Nat := 0
+  /-- object index of the `UnsafeCell` inside the value (the DSL's lazy values carry one) -/
+  cell : Nat := 0
 deriving DecidableEq, Repr, Inhabited
 
 /-- `Execution` (ids, tracing and flags dropped; `raw_allocations`/`arc_objs` are kept by the
